@@ -25,20 +25,20 @@ Qed.
 
 (* update() = subset(sub.Values(), 32) -> cc.UpdateState, called by notifyChange: the
    listener sees [clast c]; [sh] is what rand.Shuffle made of it *)
-Lemma resolver_publishes : forall xs evs c sh,
+Lemma resolver_publishes : forall n xs evs c sh, 0 <= n ->
   wf_run (init xs) evs -> In c (conts (run (init xs) evs)) -> cexcl c = false ->
   Permutation sh (clast c) ->
-  let pub := subset sh 32 in
+  let pub := subset sh n in
   NoDup pub /\
   (forall v, In v pub -> registered (truth evs) v) /\
-  (Z.of_nat (length (c_view c)) <= 32 -> forall v, registered (truth evs) v -> In v pub) /\
-  (32 < Z.of_nat (length (c_view c)) -> Z.of_nat (length pub) = 32).
+  (Z.of_nat (length (c_view c)) <= n -> forall v, registered (truth evs) v -> In v pub) /\
+  (n < Z.of_nat (length (c_view c)) -> Z.of_nat (length pub) = n).
 Proof.
-  intros xs evs c sh W Hin Hx P. cbn zeta.
+  intros n xs evs c sh Hn W Hin Hx P. cbn zeta.
   rewrite (listeners_saw_current_view xs evs c Hin) in P.
   destruct (sys_views xs evs c W Hin) as [Hnd [Hne _]]. specialize (Hne Hx).
-  destruct (subset_spec sh (c_view c) 32 P ltac:(lia)) as [Hs Hl].
-  destruct (Z_le_gt_dec (Z.of_nat (length (c_view c))) 32) as [Hle|Hgt].
+  destruct (subset_spec sh (c_view c) n P Hn) as [Hs Hl].
+  destruct (Z_le_gt_dec (Z.of_nat (length (c_view c))) n) as [Hle|Hgt].
   - specialize (Hs Hle). split; [|split; [|split]].
     + eapply Permutation_NoDup; [apply Permutation_sym; exact Hs | exact Hnd].
     + intros v Hv. apply Hne. eapply Permutation_in; eauto.
